@@ -151,6 +151,26 @@ CLAIMED["C07"] = {
     "design_ref": "DESIGN.md section 8, C07",
 }
 
+CLAIMED["C05"] = {
+    "text": "Theorem C05_collector_schedule_independent: the collector receives one interleaving of the per-sender FIFO streams -- the only "
+            "thing thread scheduling decides. For EVERY family of streams in which each ordered statistic has a single sender, no fatal "
+            "error is sent and error messages with equal leading offset come from one sender (C07), and EVERY two interleavings, the "
+            "finalised collector (what report, statistics file, displayed messages and exit status are computed from) is the same. Proved "
+            "from: an n-ary interleaving relation with `the sub-sequence that lives in one stream is the same in every interleaving`, "
+            "permutation invariance of the additive counters, and C05_stable_sort_determined (a stable sort by key is determined by the "
+            "per-key sub-sequences). The proof term type-checks only for a collector that sorts also under --mute-errors, and "
+            "C05_sort_is_the_codes pins that the source's sort is a stable one (both facts re-read from error_stats.rs on every run); "
+            "C05_refuted_unsorted_when_muted is the witness for the pinned commit (defect F3, repaired by a fix: commit). PARTIAL: that "
+            "the senders' own streams are schedule independent rests on C06 and on Rust's absence of shared mutable state; error cap and "
+            "fatal errors are excluded as the property says. Tied to the code by the real StatsCollector under sequential / reverse / "
+            "random bursty interleavings (serialised JSON must be byte-identical and equal the model) and by repeated concurrent runs of "
+            "the binary.",
+    "note": "Trusted: Coq kernel; gen translator; harness; binary; extraction + driver; std's stable sort; that channel arrival order is the "
+            "only schedule-dependent input (no schedule-perturbation hook is installed: distinct arrival orders in the CLI runs are not counted).",
+    "technique": "Coq proof (interleaving relation, permutation invariance, stable-sort determinism; regenerated structural facts) + real collector under adversarial interleavings + repeated runs",
+    "design_ref": "DESIGN.md section 8, C05",
+}
+
 ALL = ["C%02d" % i for i in range(1, 21)]
 PENDING_REASON = "not claimed yet: the model/proof for this property is still under construction in this development (see DESIGN.md section 12 build order); no check is registered until its theorem file compiles without admits and its correspondence stream runs"
 
@@ -198,7 +218,7 @@ def main():
 
 
 HOOK_COMMITS = ["f32fed4"]
-FIX_COMMITS = ["2eb10e8", "024b878", "afd2aa3"]
+FIX_COMMITS = ["2eb10e8", "024b878", "afd2aa3", "f731241"]
 NOT_APPLICABLE = {}
 
 if __name__ == "__main__":
